@@ -355,11 +355,53 @@ Proof. exists EmptyString. vm_compute. repeat split. Qed.
 Corollary status_dec_spec_ok_of_model : forall b, b <> EmptyString ->
   status_dec_spec_ok b (obs_of (status_unmarshal status_zero b)) = true.
 Proof.
-  intros b Hne. unfold status_dec_spec_ok, dec_spec_ok.
+  intros b Hne. unfold status_dec_spec_ok, dec_spec_ok, dec_spec_sound.
   destruct (status_unmarshal status_zero b) as [v| |] eqn:E; cbn [obs_of].
   - apply (status_unmarshal_iff _ _ _ Hne) in E. rewrite E.
-    unfold status_eqb. rewrite Z.eqb_refl, String.eqb_refl. reflexivity.
+    unfold status_eqb. rewrite Z.eqb_refl, String.eqb_refl. destruct (status_in_domain v); reflexivity.
   - destruct (status_den b) as [v|] eqn:D; [|reflexivity].
     apply (status_unmarshal_iff status_zero _ _ Hne) in D. congruence.
   - exfalso. exact (status_unmarshal_never_panics _ _ E).
 Qed.
+
+Lemma status_eqb_eq a b : status_eqb a b = true <-> a = b.
+Proof.
+  unfold status_eqb. destruct a as [c t], b as [c' t']. cbn [fst snd].
+  rewrite andb_true_iff, Z.eqb_eq, String.eqb_eq. split; [intros [-> ->]; reflexivity|intros [= -> ->]; auto].
+Qed.
+
+(** what the specification verdict of a decoded status text means: a text outside the
+    grammar is refused; a status-line with a code 100..999 is read with the value it
+    denotes; one with a code 000..099 is read with that value or refused; never a panic,
+    never another value *)
+Ltac solve_dir :=
+  first [ discriminate | tauto
+        | let H := fresh in intros H; apply status_eqb_eq in H; left; congruence
+        | let H := fresh in let H' := fresh in
+          intros [H|[H H']]; first [ injection H as ->; apply status_eqb_eq; reflexivity | discriminate | reflexivity | lia ]
+        | intros _; right; split; [reflexivity|lia]
+        | intros _; reflexivity ].
+
+Local Opaque Z.mul.
+Theorem status_dec_spec_ok_meaning : forall b o,
+  status_dec_spec_ok b o = true <->
+  match status_den b with
+  | None => o = ObsErr
+  | Some v => o = ObsOk v \/ (o = ObsErr /\ fst v < 100)
+  end.
+Proof.
+  intros b o. unfold status_dec_spec_ok.
+  destruct (status_den b) as [v|] eqn:D.
+  - assert (Hc : 0 <= fst v <= 999).
+    { unfold status_den in D. destruct (strip_prefix "HTTP/" b) as [r|]; [|discriminate].
+      do 8 (destruct r as [|? r]; [discriminate|]).
+      match type of D with (if ?c then _ else _) = _ => destruct c eqn:C; [|discriminate] end.
+      injection D as Hv. subst v. cbv beta iota delta [fst]. rewrite !andb_true_iff in C.
+      destruct C as [[[[[[[_ _] _] _] Hx] Hy] Hz] _].
+      apply digit_val_range in Hx, Hy, Hz. lia. }
+    unfold status_in_domain. destruct (Z.leb_spec 100 (fst v)) as [Hlo|Hlo]; destruct (Z.leb_spec (fst v) 999) as [Hhi|Hhi]; try lia; cbn [andb].
+    + unfold dec_spec_ok. destruct o as [a| | |]; split; solve_dir.
+    + unfold dec_spec_sound. destruct o as [a| | |]; split; solve_dir.
+  - unfold dec_spec_ok. destruct o; split; congruence.
+Qed.
+Local Transparent Z.mul.
